@@ -1,5 +1,5 @@
 """Registry of units and per-property texts (used for MANIFEST.json and the evidence files)."""
-UNITS = ["frame", "codec", "codec16", "gui", "per", "rc4", "engine", "session", "nego", "cssp", "mcs", "sec", "ntlm", "connector", "engine2"]
+UNITS = ["frame", "codec", "codec16", "gui", "per", "rc4", "engine", "session", "nego", "cssp", "mcs", "sec", "ntlm", "connector", "engine2", "text", "csspder"]
 
 ENGINE_ASM = ("engine contract (prelude/model.rs): Component/Trame/Array/DynOption of src/model/data.rs are assumed to "
               "serialize as the in-order concatenation of their non-skipped fields and to read field by field "
